@@ -2,7 +2,7 @@
    Theorem statements only; proofs in Proofs/ConsumerStop.v (stop), ConsumerC13.v / ConsumerC13Top.v (start Deferred).
    Model: Model/Consumer.v (afkak/consumer.py:290-1131).  Never weaken a statement here. *)
 From AV Require Import Base.Util Model.Consumer Proofs.ConsumerBase Proofs.ConsumerFrame Proofs.ConsumerC13
-  Proofs.ConsumerStop Proofs.ConsumerC13Top Proofs.ConsumerInv Proofs.ConsumerRun.
+  Proofs.ConsumerStop Proofs.ConsumerC13Top Proofs.ConsumerInv Proofs.ConsumerShut Proofs.ConsumerRun.
 Open Scope Z_scope.
 
 (* In EVERY state in which stop() can be called (not already inside stop(), not inside the auto-commit timer callback
@@ -79,6 +79,22 @@ Theorem C13_every_stop_quiescent : forall n0 fuel evs c buf,
 Proof. intros. apply stop_run; [apply reach_init | assumption]. Qed.
 Print Assumptions C13_every_stop_quiescent.
 
+(* C13_shutdown_commits over all runs: every successful outcome of a Deferred returned by shutdown(), in every run from
+   the initial state - whatever the commit outcomes, retries and interleavings, shutdown() called by the application or
+   from inside the processor - carries last_committed_offset = last_processed_offset when a group is configured (or
+   nothing was ever processed): shutd_ok g (OShutD true v lc) = (g -> v = None-code \/ lc = Some v). *)
+Theorem C13_shutdown_commits : forall n0 fuel evs c buf,
+  all_fuel_ok (run_steps fuel (init c n0 buf) evs) = true ->
+  forallb (fun t => forallb (shutd_ok (c_group c)) (t_out t)) (run_steps fuel (init c n0 buf) evs) = true.
+Proof. intros. apply shutdown_commits_run; auto. Qed.
+Print Assumptions C13_shutdown_commits.
+(* ... one event, from EVERY state between two events *)
+Theorem C13_shutdown_commits_step : forall fuel s e s' o,
+  s_pend s = [] -> step fuel s e = (s', o) -> fuel_ok o = true ->
+  forallb (shutd_ok (c_group (s_cf s))) o = true /\ s_cf s' = s_cf s.
+Proof. exact shutdown_commits_step. Qed.
+Print Assumptions C13_shutdown_commits_step.
+
 (* ---------------- non-vacuity: stop() with a commit in flight, a reply parked behind a pending processor ----------- *)
 Definition ex_cfg := mkCfg true 1 true 0 None 7.
 Definition ex_evs := [EStart 0; EPlan 0 0; EFetchOk [0; 1] false; EFireRetry; EFetchOk [2] false].
@@ -90,6 +106,13 @@ Example ex_stop : let (s', o) := step 60 ex_s EStop in
   quiescent s' = true /\ returned o = true /\ fuel_ok o = true /\
   flat_map (enc_out 7) o = [28; 27; 4; 26; 3; 30; 1; 0; 34; 0; 37; 0; -1000].
 Proof. vm_compute. repeat split; reflexivity. Qed.
+(* shutdown() from inside the processor while offsets 2,3 are being processed: commits 1, then 3, then succeeds with 3/3 *)
+Example ex_shutdown_in_processor :
+  flat_map (enc_out 7) (snd (run_events 60 (init (mkCfg true 0 false 0 None 7) 0 4096)
+     [EStart 0; EPlan 0 0; EFetchOk [0; 1] false; EFireRetry; EPlan 3 0; EFetchOk [2; 3] false; ECommitOk; ECommitOk]))
+  = [22; 0; 4096; 34; 0; 37; -1000; -1000;  37; -1000; -1000;  24; 2; 0; 1; 25; 1; -1; 37; 1; -1000;  22; 2; 4096; 37; 1; -1000;
+     37; 1; -1000;  24; 2; 2; 3; 23; 1; 7; 34; 0; 37; 3; -1000;  23; 3; 7; 37; 3; 1;  30; 1; 3; 31; 1; 3; 3; 37; 3; 3].
+Proof. vm_compute. reflexivity. Qed.
 Example ex_reach : all_fuel_ok (run_steps 60 (init ex_cfg 0 4096) (ex_evs ++ [EStop; EStart 1])) = true.
 Proof. vm_compute. reflexivity. Qed.
 Example ex_restart : let (s', _) := step 60 ex_s EStop in
